@@ -749,6 +749,7 @@ func main() {
 			{Kind: "date", Val: dateUs(999, 12, 31)},
 			{Kind: "datetime", P: 6, Val: dateUs(1, 1, 1)},
 			{Kind: "enum", Names: []string{"a", "b"}, Val: "0"},
+			{Kind: "datetime", P: 6, Val: "-62167219200000001"}, // -0001-12-31 23:59:59.999999, accepted by DATETIME(6)
 			// boundaries
 			{Kind: "int", Ty: "i8", Val: "-128"},
 			{Kind: "int", Ty: "u24", Val: "16777215"},
